@@ -136,6 +136,37 @@ def copy_case(src_kind, dst_kind, later):
     return h
 
 
+def sibling_case(op, sib_kind):
+    """The target name has no extension and is absent; a file called <name>.tdf exists.
+    Creating / copying to <name> must leave every pre-existing file untouched."""
+    def h(I):
+        def P(label, cond, note=""):
+            return I.prove(f"C17.{label}", cond, note)
+        fs = I.fs()
+        Tdf = I.mod("basictdf").Tdf
+        tinfo = _target(I, fs, sib_kind, "session.tdf")
+        pre = fs.obs("session.tdf")
+        smodel = None
+        if op == "copy":
+            smodel, sspec = C.make_prestate(I, fs, "src.tdf", 2, (16,), tag="src")
+            spre = fs.obs("src.tdf")
+        try:
+            if op == "new":
+                Tdf.new(fs.path("session"))
+            else:
+                Tdf(fs.path("src.tdf")).copy(fs.path("session"))
+            exc = None
+        except Exception as e:  # noqa: BLE001
+            exc = e
+        I.observe("exc", type(exc).__name__ if exc else None)
+        # whatever the call did (create "session", or refuse): the sibling is untouched
+        _same_as(I, P, fs, "session.tdf", pre, tinfo, "sib", ".sibling_with_tdf_extension")
+        if op == "copy":
+            unchanged(I, P, fs, spre, smodel, None, None, 2, "s", ".source_after_copy", name="src.tdf")
+        I.goal("done")
+    return h
+
+
 def open_case(kind):
     def h(I):
         def P(label, cond, note=""):
@@ -197,6 +228,9 @@ def instances(tier):
             out.append(Instance(f"copy.{s}.to.{d}", copy_case(s, d, None), goals=["absent" if d == "absent" else "exists"]))
         for later in ("mutate_copy", "mutate_source"):
             out.append(Instance(f"copy.{s}.then.{later}", copy_case(s, "absent", later), goals=["absent"]))
+    for op in ("new", "copy"):
+        for sk in ("tdf21", "raw5", "raw0"):
+            out.append(Instance(f"sibling.{op}.{sk}", sibling_case(op, sk), goals=["done"]))
     for k in ["missing", "sig", "short0", "short5", "short15"]:
         out.append(Instance(f"open.{k}", open_case(k), goals=(["opened", "refused"] if k == "sig" else (["done"] if k == "missing" else ["refused"]))))
     return out
